@@ -108,6 +108,8 @@ class Calc(object):
             raise ParseError("numeric constant '%s' not found" % p[1])
 
     def p_error(self, p):
+        if p is None:
+            raise ParseError("unexpected end of expression")
         raise ParseError("syntax error at '%s'" % p.value)
 
 
